@@ -333,6 +333,20 @@ class ZPickDomain(PickDomain):
         super().__init__(F, fid)
         self.kind = tables.ZBDD
 
+    def const(self, it, e):
+        c = self.F.consts.get(e.get("did") or "")
+        if c and "body" in c:
+            return it.ev(c["body"], {"$consts": {}, "$fn": e.get("did")})
+        return super().const(it, e)
+
+    def method(self, it, m, e, env):
+        if m in ("std::cmp::Ord::cmp", "core::cmp::Ord::cmp"):
+            a = it.recv(e, env)
+            (b,) = it.args(e, env)
+            if isinstance(a, int) and isinstance(b, int):
+                return Enum("core::cmp::Ordering::" + ("Less" if a < b else "Greater" if a > b else "Equal"))
+        return super().method(it, m, e, env)
+
 
 def run_zbdd(ctx, F, rule="E-TABLE.pick"):
     """ZBDD pick_cube_edge::inner / pick_cube_dd_edge::inner, one step on node(level 3; hi, lo):
@@ -583,4 +597,74 @@ def check_uniform(ctx, F, rule="E-TABLE.pick.uniform"):
                          "cofactors of the current node and the manager's number of levels" % (a, b))
     ctx.ob(rule, rule, not fails and n >= 2, "%s (%s): %s" % (fid, F.where(fid), " || ".join(fails[:2]) if fails else
                                                              "branch probability = count(then) / (count(then) + count(else))"))
+    return n
+
+
+def run_zbdd_set(ctx, F, rule="E-TABLE.pick"):
+    """ZBDD `pick_cube_dd_set_edge::inner`, one step on node(level 3; hi, lo) with a literal set given as a ZBDD cube of the
+    Boolean view (positive literal: node(l; rest, Empty); don't care: node(l; rest, rest); negative: level absent):
+    lo == Empty forces hi; otherwise a positive / don't-care literal at the level selects hi, its absence selects lo;
+    literals on levels above are skipped along their HI edges; the result is the sub-cube itself on the lo branch and
+    node(3; sub, Empty) on the hi branch -- node(3; sub, sub) only when both the literal and the function's node are
+    don't care; the literal set handed down is the one reached by the skipping."""
+    base = "oxidd_rules_zbdd::apply_rec::"
+    fids = [f for f in F.hir if f.startswith(base) and f.endswith("::pick_cube_dd_set_edge::inner")]
+    if not ctx.anchor(rule, "zbdd pick_cube_dd_set_edge::inner", len(fids) == 1):
+        return 0
+    fid = fids[0]
+    EMPTY, BASE = Edge(("T", Enum(ZT + "Empty"))), Edge(("T", Enum(ZT + "Base")))
+
+    def inner(name, level, children):
+        return Edge(("S", SNode(name, level, children)))
+    A = inner("a", 6, (BASE, EMPTY))
+    Bn = inner("b", 7, (BASE, BASE))
+    rest = inner("rest", 5, (BASE, EMPTY))
+    lits = {
+        "no literal (Base)": (BASE, "neg", BASE),
+        "literals below only": (rest, "neg", rest),
+        "positive literal here": (inner("p3", 3, (rest, EMPTY)), "pos", None),
+        "don't-care literal here": (inner("d3", 3, (rest, rest)), "dc", None),
+    }
+    for nm, (ls, pol, cont) in list(lits.items()):
+        lits["positive literal above, then " + nm] = (inner("pa", 1, (ls, EMPTY)), pol, cont)
+        lits["don't-care literal above, then " + nm] = (inner("da", 1, (ls, ls)), pol, cont)
+    fails = []
+    n = 0
+    for (hi, lo), (lname, (ls, pol, cont)) in itertools.product(((A, EMPTY), (A, A), (A, Bn), (BASE, Bn)), sorted(lits.items())):
+        N = inner("n", 3, (hi, lo))
+        holder = {}
+
+        def mk(oracle):
+            holder["d"] = ZPickDomain(F, fid)
+            return Interp(F, holder["d"], oracle)
+        for trace, (status, val) in enumerate_runs(mk, lambda it: it.call_fn(fid, [Opaque("manager"), N, ls])):
+            n += 1
+            d = holder["d"]
+            sit = "zbdd node(hi=%r, lo=%r), %s" % (hi, lo, lname)
+            if status != "ok":
+                fails.append("%s: %s %s" % (sit, status, val))
+                continue
+            if not d.rec or len(d.rec[0]) != 2:
+                fails.append("%s: no recursive call with (edge, literal set) found" % sit)
+                continue
+            took, ls_next = d.rec[0]
+            forced = lo == EMPTY
+            take_hi = forced or pol in ("pos", "dc")
+            want = hi if take_hi else lo
+            if took != want:
+                fails.append("%s: descends into %r, expected %r" % (sit, took, want))
+                continue
+            v = val.args[0] if isinstance(val, Enum) and val.path == OK else val
+            if not take_hi:
+                if not (isinstance(v, Edge) and v.node[0] == "REC"):
+                    fails.append("%s: on the lo branch the result is %r, expected the sub-cube itself" % (sit, v))
+            else:
+                dc = (not forced) and pol == "dc" and hi == lo
+                okn = isinstance(v, Edge) and v.node[0] == "NEW" and v.node[1] == 3 and v.node[2] == 3 and v.node[3][0].node[0] == "REC" \
+                    and (v.node[3][1].node[0] == "REC" if dc else v.node[3][1] == EMPTY)
+                if not okn:
+                    fails.append("%s: result %r, expected node(3; sub, %s)" % (sit, v, "sub" if dc else "Empty"))
+    ctx.ob(rule, "%s:zbdd:pick_cube_dd_set_edge" % rule, not fails,
+           "zbdd pick_cube_dd_set_edge::inner (%s): %s" % (F.where(fid), "%d situation(s) wrong; first: %s" % (len(fails), " || ".join(fails[:3]))
+                                                           if fails else "ok"))
     return n
